@@ -2,6 +2,8 @@
    extracted bit-level model, prints one canonical observable per line.  Parsing and printing
    only; every computation is an extracted Coq function. *)
 open Bitsx
+(* the extracted code defines the Coq inductive [string] (version constants); the driver means OCaml's *)
+type string = Stdlib.String.t
 
 let rec nat_of_int (i : int) : nat = if i <= 0 then O else S (nat_of_int (i - 1))
 let int_of_nat (n : nat) : int =
@@ -307,7 +309,11 @@ let run_file (inp : in_channel) (out : out_channel) =
               Printf.bprintf buf "B ok\nWF %d\n" (if trie_wf t then 1 else 0);
               (match encode_trie t with
                | Panic -> Buffer.add_string buf "ENC PANIC\n"
-               | Val m -> pr_msg buf m));
+               | Val m ->
+                 pr_msg buf m;
+                 (match marshal_gen (to_wire m) with
+                  | Some bs -> Printf.bprintf buf "MB %s\n" (hex_of_bytes bs)
+                  | None -> Buffer.add_string buf "MB FAIL\n")));
            c.block <- Buffer.contents buf;
            Printf.fprintf out "C %s\n%s" c.cid c.block
          | "L" :: cid :: _ ->
